@@ -169,7 +169,7 @@ def scenario(ctx, rng, tmpdir):
                 ctx.dist['abandoned:post-edit-refused'] += 1
                 s.close()
                 return
-        hidden = unlinked = None
+        hidden = None
         if rng.random() < 0.25:
             b = rng.choice(boots)
             try:
@@ -177,14 +177,16 @@ def scenario(ctx, rng, tmpdir):
                 hidden = b['name']
             except Exception as e:  # noqa
                 viol('C11.hide-boot-raises', 'set_hidden on the boot file raised %r' % e)
-        if rng.random() < 0.25:
-            b = rng.choice(boots)
+        unlinked = set()
+        r = rng.random()
+        # one boot file, or every boot file (several inodes released by rm_eltorito), loses all its names
+        for b in ([rng.choice(boots)] if r < 0.25 else boots if r < 0.4 else []):
             try:
                 for key, val in b['names'].items():
                     k2 = {'iso_path': 'iso_path', 'joliet_path': 'joliet_path', 'udf_path': 'udf_path'}.get(key)
                     if k2:
                         iso.rm_hard_link(**{k2: val})
-                unlinked = b['name']
+                unlinked.add(b['name'])
             except Exception as e:  # noqa
                 viol('C11.unlink-boot-raises/%s' % isoapi.exc_class(e), 'rm_hard_link of the boot file names raised %r' % e)
         # correspondence: catalog bytes
@@ -235,7 +237,7 @@ def scenario(ctx, rng, tmpdir):
             if stored != expect:
                 viol('C11.load-rba', 'entry for %s: load address %d does not hold the boot file bytes' % (b['name'], rba))
         # read back through the API (own parser) under each remaining name
-        if b['name'] != unlinked:
+        if b['name'] not in unlinked:
             iso2 = pycdlib.PyCdlib()
             try:
                 iso2.open(path)
@@ -253,7 +255,7 @@ def scenario(ctx, rng, tmpdir):
             if int(f[5]) != catsec or (f[0] != 'U' and int(f[3]) != 2048):
                 viol('C11.catalog-file/%s' % f[0], 'catalog name %s points at sector %s (catalog is at %d)' % (ent[:60], f[5], catsec))
     ctx.count(key=scenario.seed, nontrivial=True, kind='boots=%d' % len(boots),
-              sample={'cfg': cfg, 'boots': [{'name': b['name'], 'len': len(b['data']), 'kw': b['kw']} for b in boots][:3], 'hidden': hidden, 'unlinked': unlinked})
+              sample={'cfg': cfg, 'boots': [{'name': b['name'], 'len': len(b['data']), 'kw': b['kw']} for b in boots][:3], 'hidden': hidden, 'unlinked': sorted(unlinked)})
     os.unlink(path)
     # rm_eltorito removes all of this and nothing else
     with isoapi.frozen_time():
